@@ -205,7 +205,7 @@ func StalePodsDomain(maxOrd, maxRep, nph int) *Domain {
 func OddSlotsPodsDomain(maxOrd, maxRep, nph int) *Domain {
 	base := PodsDomain(maxOrd, maxRep, nph, false)
 	nb := len(base.Dims)
-	d := &Domain{Name: "oddslots-" + base.Name, Dims: append(append([]int{}, base.Dims...), 3, 2)}
+	d := &Domain{Name: "oddslots-" + base.Name, Dims: append(append([]int{}, base.Dims...), 4, 2)}
 	d.Make = func(ix []int) *Scenario {
 		sc := base.Make(ix[:nb])
 		sc.Dom = ix
@@ -221,6 +221,15 @@ func OddSlotsPodsDomain(maxOrd, maxRep, nph int) *Domain {
 			sl = append(sl, 50)
 		}
 		sc.Set.SlotsAnn = slotsAnn(sl)
+		if ix[nb] == 3 {
+			// a list with one element of the wrong type: the whole annotation is to be ignored, not half of it
+			raw := "[\"2\""
+			for _, x := range sl {
+				raw += fmt.Sprintf(", %d", x)
+			}
+			raw += "]"
+			sc.Set.SlotsAnn = &raw
+		}
 		return sc
 	}
 	return d
